@@ -53,6 +53,10 @@ var relatedNameGroups = [][]genName{
 	{{2, []byte("a.onion")}, {2, []byte(strings.Repeat("a", 56) + ".onion")}, {2, []byte("www.example.com")}},
 	{{2, []byte("xn--caf-dma.example.com")}, {2, []byte("xn--bad!.example.com")}, {2, []byte("example.com")}},
 	{{2, []byte("example.invalidtld")}, {2, []byte("example.com")}, {2, []byte("192.168.0.1")}},
+	// a dNSName with bytes outside IA5 next to clean ones
+	{{2, []byte("caf\xc3\xa9.example.com")}, {2, []byte("www.example.com")}},
+	{{2, []byte("www.example.com")}, {2, []byte("\xff.example.com")}, {7, net.ParseIP("8.8.8.8").To4()}, {6, []byte("http://example.com/")}},
+	{{1, []byte("caf\xc3\xa9@example.com")}, {1, []byte("a@example.com")}, {6, []byte("http://caf\xc3\xa9.example.com/")}, {6, []byte("http://example.com/")}},
 	// an A-label that does not decode next to one that decodes to text that is not in normalisation form C
 	{{2, []byte("xn--bad!.example.com")}, {2, []byte("xn--ex-8tb.example.com")}},
 	{{2, []byte("xn--0.example.com")}, {2, []byte("www.example.com")}, {2, []byte("a.xn--ex-8tb.example.com")}},
@@ -68,7 +72,7 @@ func tldSamples() (removed, active []string) {
 		if strings.HasPrefix(k, "xn--") {
 			continue
 		}
-		if m[k].RemovalDate != "" && len(removed) < 6 {
+		if m[k].RemovalDate != "" && (len(removed) < 6 || (m[k].RemovalDate >= "2023-10-02" && len(removed) < 12)) {
 			removed = append(removed, k)
 		}
 		if m[k].RemovalDate == "" && len(active) < 3 && len(k) > 3 {
@@ -240,6 +244,38 @@ func certZoo() []ZooCert {
 		}
 		_ = j
 	}
+	// (4c) name constraints of every form (dNSName, rfc822Name, iPAddress, URI), permitted and excluded, with values that
+	// start with the characters the helpers strip or treat specially
+	{
+		vals := []string{"example.com", ".example.com", "", ".", "?", "?example.com", "?.example.com", "??.example.com", ".?example.com", "*.example.com", "*", "EXAMPLE.com", "example.com.", "a..b",
+			"xn--caf-dma.com", "host", "user@example.com", "@example.com", "http://example.com", "//example.com", "[::1]", "10.0.0.1", " ", "%", "exa mple.com"}
+		for i, v := range vals {
+			for form := 0; form < 4; form++ {
+				t := leafTemplate()
+				t.IsCA, t.KeyUsage, t.ExtKeyUsage, t.DNSNames = true, stdx509.KeyUsageCertSign|stdx509.KeyUsageCRLSign, nil, nil
+				t.Subject.CommonName = "Constrained CA"
+				t.PermittedDNSDomainsCritical = form%2 == 0
+				switch form {
+				case 0:
+					t.PermittedDNSDomains = []string{v}
+					t.ExcludedURIDomains = []string{v}
+				case 1:
+					t.PermittedURIDomains = []string{v, "example.org"}
+				case 2:
+					t.ExcludedDNSDomains = []string{"example.org", v}
+					t.PermittedEmailAddresses = []string{v}
+				case 3:
+					t.ExcludedEmailAddresses = []string{v}
+					t.PermittedURIDomains = []string{v}
+					_, n1, _ := net.ParseCIDR("10.0.0.0/8")
+					_, n2, _ := net.ParseCIDR("2001:db8::/32")
+					t.PermittedIPRanges = []*net.IPNet{n1}
+					t.ExcludedIPRanges = []*net.IPNet{n2}
+				}
+				issueT("name-constraints", fmt.Sprintf("%d-%d", i, form), t)
+			}
+		}
+	}
 	// (5) names: every pool name alone (SAN, and as common name), related-name groups, many SANs
 	for i, n := range namePool {
 		for _, inCN := range []bool{false, true} {
@@ -293,6 +329,14 @@ func certZoo() []ZooCert {
 						t.CRLDistributionPoints = []string{"http://crl.example." + k + "/x.crl"}
 					}
 					issueT("tld", fmt.Sprintf("%s-%d-%d", k, di, v), t)
+					// the same in the scope of both the TLS and the S/MIME documents (both AIA internal-name rules run)
+					t2 := *t
+					t2.SerialNumber = big.NewInt(int64(900000 + len(out)))
+					t2.NotBefore, t2.NotAfter = time.Date(2023, 10, 1, 0, 0, 0, 0, time.UTC), time.Date(2024, 1, 1, 0, 0, 0, 0, time.UTC)
+					t2.ExtKeyUsage = []stdx509.ExtKeyUsage{stdx509.ExtKeyUsageServerAuth, stdx509.ExtKeyUsageEmailProtection}
+					t2.EmailAddresses = []string{"a@example.com"}
+					t2.PolicyIdentifiers = []asn1.ObjectIdentifier{{2, 23, 140, 1, 5, 1, 1}}
+					issueT("tld", fmt.Sprintf("%s-%d-%d-smime", k, di, v), &t2)
 				}
 			}
 		}
@@ -489,6 +533,35 @@ func crlZoo() []CorpusCRL {
 			continue
 		}
 		crlZooCache = append(crlZooCache, CorpusCRL{fmt.Sprintf("zoo-crl-%d", i), der, crl})
+	}
+	// large lists (a size-dependent code path is a code path): 130, 200 and 300 entries in no particular serial order,
+	// the first listed entry with reason 0, the entry with the smallest serial with reason 7, one list with a duplicate
+	for li, n := range []int{130, 200, 300} {
+		tmpl := &stdx509.RevocationList{Number: big.NewInt(int64(5000 + li)), ThisUpdate: time.Date(2024, 2, 1, 0, 0, 0, 0, time.UTC), NextUpdate: time.Date(2024, 2, 8, 0, 0, 0, 0, time.UTC)}
+		for j := 0; j < n; j++ {
+			serial := int64((j*7919+li*13)%100000 + 1000)
+			e := stdx509.RevocationListEntry{SerialNumber: big.NewInt(serial), RevocationTime: tmpl.ThisUpdate.Add(-time.Duration(j+1) * time.Hour)}
+			switch {
+			case j == 0:
+				e.ReasonCode = 0
+				e.ExtraExtensions = append(e.ExtraExtensions, pkix.Extension{Id: asn1.ObjectIdentifier{2, 5, 29, 21}, Value: []byte{0x0a, 0x01, 0x00}})
+			case j%5 == 1:
+				e.ReasonCode = []int{1, 3, 4, 5, 9}[j%5]
+			}
+			tmpl.RevokedCertificateEntries = append(tmpl.RevokedCertificateEntries, e)
+		}
+		tmpl.RevokedCertificateEntries = append(tmpl.RevokedCertificateEntries, stdx509.RevocationListEntry{SerialNumber: big.NewInt(7), RevocationTime: tmpl.ThisUpdate.Add(-time.Hour),
+			ExtraExtensions: []pkix.Extension{{Id: asn1.ObjectIdentifier{2, 5, 29, 21}, Value: []byte{0x0a, 0x01, 0x07}}}})
+		if li == 1 {
+			tmpl.RevokedCertificateEntries = append(tmpl.RevokedCertificateEntries, tmpl.RevokedCertificateEntries[3])
+		}
+		der, err := stdx509.CreateRevocationList(crand.Reader, tmpl, k.caCert, k.caKey)
+		if err != nil {
+			continue
+		}
+		if crl, err := safeParseCRL(der); err == nil {
+			crlZooCache = append(crlZooCache, CorpusCRL{fmt.Sprintf("zoo-crl-large-%d", n), der, crl})
+		}
 	}
 	return crlZooCache
 }
